@@ -9,6 +9,8 @@ structure InvR (w : Workload) (s : State) : Prop where
   order_mem : ∀ i, i ∈ s.rmwOrder ↔ s.rmwDone i = true
   win_done : ∀ k, s.win = some k → s.rmwDone k = true
   err_done : ∀ e, s.errBy = some e → s.rmwDone e = true
+  /-- All / AllTuple / Join with FirstFail: only failing inputs touch the flag -/
+  done_fail : w.strat.allFF = true → ∀ i, s.rmwDone i = true → ok (w.inp i) = false
 
 /-- strategies with the `_done` flag: All / AllTuple / Join with FirstFail, Any<None> -/
 structure InvF (w : Workload) (s : State) : Prop where
@@ -31,9 +33,29 @@ structure InvG (w : Workload) (s : State) : Prop where
   s3_err2 : s.st3 = .error → s.errBy ≠ none
   s3_past : ∀ i, past (s.pc i) = true → s.st3 ≠ .empty
   s3_dec : ∀ i, s.pc i = .dec true → s.errBy = some i
+  /-- a value that is past its decision has seen or written `kValue` -/
+  s3_past_val : ∀ i, past (s.pc i) = true → ok (w.inp i) = true → s.st3 = .value
 
 theorem invg_init (w : Workload) : InvG w (init w) := by
   constructor <;> simp [init, past]
+
+/-- Any<LastFail>: the packed counter -/
+structure InvL (w : Workload) (s : State) : Prop where
+  lf_lt : s.lf < two64
+  /-- no value has exchanged yet: the counter is twice the number of inputs that have not subtracted yet -/
+  lf_even : s.lf % 2 = 0 →
+    s.lf = 2 * (w.n - cnt s.rmwDone w.n) ∧ s.rmwOrder.find? (fun i => ok (w.inp i)) = none
+  /-- a value has exchanged: the first one to do so won -/
+  lf_odd : s.lf % 2 = 1 → s.win ≠ none ∧ s.win = s.rmwOrder.find? (fun i => ok (w.inp i))
+  /-- while even, somebody won iff the counter reached zero, and it was the last one to subtract -/
+  lf_win0 : s.lf % 2 = 0 → ((s.win ≠ none ↔ s.lf = 0) ∧ ∀ k, s.win = some k → s.rmwOrder.getLast? = some k)
+  lf_past : ∀ i, past (s.pc i) = true → s.rmwDone i = true ∨ s.lf % 2 = 1
+
+theorem invl_init (w : Workload) (hn : 2 * w.n < two64) (hn0 : w.n ≠ 0) : InvL w (init w) := by
+  have h0 : cnt (fun _ => false) w.n = 0 := cnt_all_false (fun _ _ => rfl)
+  constructor <;> simp [init, past, Nat.mod_eq_of_lt hn, h0]
+  · exact hn
+  · omega
 
 theorem invr_init (w : Workload) : InvR w (init w) := by
   constructor <;> simp [init]
